@@ -34,7 +34,7 @@ MUST_SEE = [
     "recompiles_hot", "unknown_class", "non_node_class", "duplicate_capture", "var_before_capture", "var_inside_own_capture", "random_strings", "late_defined_class", "compile_after_rejected",
 ]
 CONFIG = {
-    "quick": {"shards": 16, "rounds": 120, "watchdog_s": 600},
+    "quick": {"shards": 16, "rounds": 500, "watchdog_s": 600},
     "thorough": {"shards": 32, "rounds": 2500, "watchdog_s": 3400},
 }
 
